@@ -90,6 +90,29 @@ pub fn run_bin<S: AsRef<str>>(args: &[S], stdin: Option<&str>, extra_env: &[(&st
     o
 }
 
+/// Run the real binary with stdin delivered late / in pieces (see `proc::Delivery`).
+pub fn run_bin_delivery<S: AsRef<str>>(args: &[S], stdin: Option<&str>, extra_env: &[(&str, &str)], cwd: Option<&Path>, delivery: &proc::Delivery) -> proc::Out {
+    let bin = proc::zerv_bin();
+    let mut env = proc::base_env();
+    for (k, v) in extra_env {
+        env.retain(|(ek, _)| ek != k);
+        env.push((k.to_string(), v.to_string()));
+    }
+    let o = proc::run_delivery(&proc::Run {
+        program: &bin,
+        args: args.iter().map(|s| s.as_ref().to_string()).collect(),
+        stdin: stdin.map(|s| s.as_bytes().to_vec()),
+        env,
+        cwd,
+        timeout: Duration::from_secs(120),
+    }, delivery)
+    .unwrap_or_else(|e| crate::machinery_error(&format!("cannot spawn {bin:?}: {e}")));
+    if o.timed_out {
+        crate::machinery_error(&format!("zerv timed out on {:?}", args.iter().map(|s| s.as_ref()).collect::<Vec<_>>()));
+    }
+    o
+}
+
 /// Conformance of the in-process driver with the real binary on one case:
 /// (exit==0, stdout) must equal (Ok, output + "\n"); failure => stdout empty.
 pub fn conforms(inproc: &Result<Res, PanicInfo>, out: &proc::Out) -> Result<(), String> {
